@@ -268,3 +268,38 @@ def send_scp_terms(program, T, call):
         if k.arg:
             out[k.arg] = T.term(k.value, n)
     return out
+
+
+def resolve_tmp(fl, expr, node, depth=6):
+    """``expr`` with the temporaries it names replaced by their defining
+    expressions, as long as that is exact: a Name with one reaching plain
+    assignment that dominates ``node`` and whose operands are not re-defined
+    in between.  The result is an expression over the variables current at
+    ``node`` (suitable for Flow.sym / Interp.sym at that node)."""
+    import copy as _copy
+    if depth == 0:
+        return expr
+    if isinstance(expr, ast.Name):
+        ds = fl.reaching(expr.id, node)
+        if len(ds) == 1 and ds[0].mode == "assign" and \
+                ds[0].value is not None and \
+                fl.cfg.dominates(ds[0].node, node):
+            d = ds[0]
+            try:
+                val = fl.sym(d.value, d.node)
+                okv = fl._available(val, d.node, node)
+            except AnalysisError:
+                okv = False
+            if okv:
+                return resolve_tmp(fl, d.value, d.node, depth - 1)
+        return expr
+    if isinstance(expr, (ast.Tuple, ast.List)):
+        new = type(expr)(elts=[resolve_tmp(fl, e, node, depth - 1)
+                               for e in expr.elts], ctx=ast.Load())
+        ast.copy_location(new, expr)
+        new._parent = getattr(expr, "_parent", None)
+        for e in new.elts:
+            if not hasattr(e, "_parent"):
+                e._parent = new
+        return new
+    return expr
